@@ -33,13 +33,14 @@ RULE = (
     "G-SPEC specs with 2-3 Einsums (chain2 / elementwise2 on 2-3 memory levels, chain3 / diamond on 2 levels; small "
     "bounds; finite throughputs so ENERGY|LATENCY fronts have several points; metrics ENERGY and ENERGY|LATENCY). "
     "Reference: set_n_parallel_jobs(1), no hook, no cache, PYTHONHASHSEED=0. Compared: ACCELFORGE_VERIF_SCHEDULE_SEED "
-    "in 3 (quick) / 6 (thorough) drawn seeds with set_n_parallel_jobs(4) (in-process, permuted completion order); real "
+    "in 3 (quick) / 6 (thorough) drawn seeds with set_n_parallel_jobs(64 / 4 / 16 in turn) (in-process, permuted completion order; with more workers than pmapping groups the joiner splits groups); real "
     "set_n_parallel_jobs(4) with loky workers; PYTHONHASHSEED in {1, 4242, a per-shard drawn 32-bit seed} in helper "
     "processes; cache_dir cold then warm in a fresh directory that already holds the pmappings of the sibling spec "
     "differing only in spec.mapper.metrics, plus a warm read of the same directory from a helper process with another "
     "hash seed. Oracle: identical sorted list of (energy, latency within rel 1e-6, Canon(mapping)). Non-trivial: every "
     "Einsum has >= 2 pmapping jobs, some Einsum has >= 2 pmapping groups to join, and the hook logged >= 1 non-identity "
-    "permutation. Distinct = distinct (spec, seeds)."
+    "permutation. A second, light family (2-3 chained matmuls, two levels, ENERGY|LATENCY) is compared only between the "
+    "reference and two hook schedules with 16 and 64 emulated workers. Distinct = distinct (spec, seeds)."
 )
 ASSUMPTIONS = [
     "the hook in accelforge/util/parallel.py delivers results in a completion order that real worker processes could also produce",
@@ -356,8 +357,10 @@ def check(desc, col):
             warm = run_config(sp, {"n_jobs": 1, "cache": cache_dir})
             results.append(("cache-warm", "cache", warm))
         seeds = list(desc.get("hook_seeds", []))
-        for hs in (seeds[:1] if slow else seeds):
-            results.append((f"hook-seed-{hs}/n_jobs=4", "hook", run_config(sp, {"n_jobs": 4, "hook": hs})))
+        # worker counts 64 / 4 / 16: with more workers than pmapping groups the joiner splits groups to feed them all
+        for i, hs in enumerate(seeds[:1] if slow else seeds):
+            nj = (desc.get("hook_jobs") or (64, 4, 16))[i % len(desc.get("hook_jobs") or (64, 4, 16))]
+            results.append((f"hook-seed-{hs}/n_jobs={nj}", "hook", run_config(sp, {"n_jobs": nj, "hook": hs})))
         if desc.get("real") and not slow:
             results.append(("real-loky/n_jobs=4", "real", run_config(sp, {"n_jobs": 4})))
         gone = []
@@ -398,7 +401,7 @@ def check(desc, col):
     nontrivial = bool(ref["status"] == "ok" and jobs and min(jobs.values()) >= 2 and max(groups.values()) >= 2 and perm_fps)
     mism = []
     labels = [f"shape:{sp['shape']}", f"metrics:{sp['mapper']['metrics']}", f"ref:{ref['status']}" + (":" + ref.get("type", "") if ref["status"] == "crash" else ""),
-              f"configs:{len(results) + 1}"] + [f"cache:{c}" for c in cache_note]
+              f"configs:{len(results) + 1}", "family:light" if desc.get("light") else "family:full"] + [f"cache:{c}" for c in cache_note]
     if ref["status"] == "ok":
         labels += [f"front:{min(len(ref['rows']), 4)}", "min_jobs_per_einsum:" + _bucket(min(jobs.values())),
                    "max_groups_per_einsum:" + _bucket(max(groups.values())), "nonid_perms:" + _bucket(len(perm_fps))]
@@ -441,18 +444,32 @@ def cases(draw, n_hook, hash_seeds):
     return {"spec": sp, "hook_seeds": seeds, "hash_seeds": list(hash_seeds), "real": True, "cache": True}
 
 
+@st.composite
+def light_cases(draw):
+    """cheap second family: 2-3 chained matmuls on two memory levels with ENERGY|LATENCY, compared only between the
+    reference and two in-process schedules with 16 and 64 emulated workers (more workers than pmapping groups: the
+    joiner splits groups to keep every worker busy)"""
+    sp = draw(G.specs(shapes=("chain2", "chain2", "chain3"), levels=(2,), metrics=("ENERGY|LATENCY",),
+                      bound_pool=[2, 3, 4, 4, 4, 6], finite_tp=True, max_ops=400))
+    seeds = draw(st.lists(st.integers(0, 10**6), min_size=2, max_size=2, unique=True))
+    return {"spec": sp, "hook_seeds": seeds, "hash_seeds": [], "real": False, "cache": False, "hook_jobs": [16, 64], "light": True}
+
+
 N = {"quick": (5, 2, 3), "thorough": (10, 6, 6)}     # shards, specs per shard, hook seeds
+N_LIGHT = {"quick": 4, "thorough": 16}               # light specs per shard
 
 
 def shards(tier, seed):
     ns, n, nh = N[tier]
-    return [{"k": k, "n": n, "n_hook": nh, "seed": seed, "hash_seeds": [1, 4242, hash32(seed, "C20-hashseed", k)]}
+    return [{"k": k, "n": n, "n_hook": nh, "n_light": N_LIGHT[tier], "seed": seed, "hash_seeds": [1, 4242, hash32(seed, "C20-hashseed", k)]}
             for k in range(ns)]
 
 
 def run_shard(shard, col):
     try:
         drive(cases(shard["n_hook"], shard["hash_seeds"]), check, n=shard["n"], seed=hash32(shard["seed"], "C20", shard["k"]),
+              col=col, shrink=False)
+        drive(light_cases(), check, n=shard.get("n_light", 0), seed=hash32(shard["seed"], "C20light", shard["k"]),
               col=col, shrink=False)
     finally:
         close_helpers()
